@@ -27,17 +27,31 @@ def main():
     edits = {"SampleSize = 2500": "SampleSize = 0"} if thorough else None
     cases, res = vf.mc_cases(chk, "MC_C03", cfg_edits=edits, actions=["AnalyzeFn", "ConvertSignatures", "StaticCheck"], workers=12, heap="12g",
                              timeout=3000)
-    crate = vf.Crate(os.path.join(chk.work, "crate"), "c03cases", deps=["vt"])
-    crate.prelude = sigprogs.PRELUDE
+    # both cargo feature settings of entrait: quick assigns each signature to one of the two crates, thorough builds every
+    # signature in both; under the feature a quarter of the signatures also name a mock_api (the derivation stays test-gated)
+    crates = {"off": vf.Crate(os.path.join(chk.work, "crate"), "c03cases", deps=["vt"]),
+              "on": vf.Crate(os.path.join(chk.work, "crate-on"), "c03on", deps=["vt"], features=("unimock",))}
     srcs = {}
-    for c in cases:
-        src = sigprogs.render(c)
-        srcs[c["case"]] = src
-        items, wit = split(src)
-        crate.add_case(c["case"] + "i", items)
-        crate.add_case(c["case"] + "w", src)          # items again + witness (own module, own expansion)
-    dump = os.path.join(chk.work, "dump")
-    dropped, first_dump, iters = crate.build(mode="check", dump=dump, max_iter=20)
+    where = {}
+    for n, c in enumerate(cases):
+        c["xopt"] = ", mock_api = Mk" if n % 4 == 0 else ""
+        where[c["case"]] = ["off", "on"] if thorough else (["on"] if n % 2 == 0 else ["off"])
+    for name, crate in crates.items():
+        crate.prelude = sigprogs.PRELUDE
+        for c in cases:
+            if name not in where[c["case"]]:
+                continue
+            src = sigprogs.render({**c, "xopt": c["xopt"] if name == "on" else ""})
+            srcs[c["case"]] = src
+            items, wit = split(src)
+            crate.add_case(c["case"] + "i", items)
+            crate.add_case(c["case"] + "w", src)          # items again + witness (own module, own expansion)
+    dropped, iters = {}, 0
+    for name, crate in crates.items():
+        d, first_dump, it = crate.build(mode="check", dump=os.path.join(chk.work, "dump-" + name), max_iter=20)
+        for k, v in d.items():
+            dropped.setdefault(k, []).extend(v)
+        iters = max(iters, it)
     events = []
     for c in cases:
         cid = c["case"]
@@ -53,7 +67,7 @@ def main():
     chk.cov["distinct_nontrivial"] = len({json.dumps([c["mode"], c["fns"]], sort_keys=True) for c in cases if ev[c["case"]]["obs"]["compiled"] and c["fns"][0]["params"]})
     chk.cov["rule"] = ("signatures of the supported class as enumerated by MC_C03 (16 442 inputs with <= 2 further parameters); quick replays a "
                        "random subset of 2 500 drawn by TLC (RandomSubset), thorough all; per signature the expansion and a fn-pointer / Output "
-                       "witness are compiled separately; non-trivial = compiled and has further parameters")
+                       "witness are compiled separately, with entrait's `unimock` feature off or on (quick: one of the two per signature, thorough: both); non-trivial = compiled and has further parameters")
     chk.cov["exhaustive"] = bool(thorough)
     chk.cov["build_iterations"] = iters
     chk.cov["rejected_by_rustc"] = sum(1 for e in events if not e["obs"]["compiled"])
